@@ -14,6 +14,8 @@ OC, GF, SC, CL, ST, PE = ("onsager/OnsagerCalc.py", "onsager/GFcalc.py", "onsage
 # ---------------- C14
 mut("c14_return_cached_array", ["C14"], "re-introduce D1: Lij returns the cached L0vv object",
     [(OC, "        return L0vv.copy(), D0ss + L1ss", "        return L0vv, D0ss + L1ss")])
+mut("c14_etav_not_copied", ["C14"], "re-introduce D7: the bias correction is cached by reference",
+    [(OC, "            self.etavvalues[vTK] = etav.copy()\n", "            self.etavvalues[vTK] = etav\n")])
 mut("c14_stale_vectorstars", ["C14"], "re-introduce D2: generate() keeps the old vector stars",
     [(OC, "        self.vkinetic = stars.VectorStarSet(self.kinetic)\n", "        self.vkinetic.generate(self.kinetic)\n")])
 mut("c14_key_aliases_input", ["C14"], "re-introduce D3: cache key aliases the caller's arrays",
